@@ -253,6 +253,15 @@ theorem C14_csptp_resp_decode_total (b : List Nat) :
       refine .inr ⟨_, rfl, by omega, ?_⟩
       rw [resp_decoded_flag b]; omega
 
+/-- The three CSPTP decoders never panic, whatever the input (form used by C08). -/
+theorem C14_csptp_decode_no_panic (b : List Nat) :
+    (decodeMessage b).isPanic = false ∧ (decodeRequestTLV b).isPanic = false ∧
+    (decodeResponseTLV b).isPanic = false := by
+  refine ⟨?_, ?_, ?_⟩
+  · rcases C14_csptp_msg_decode_total b with ⟨_, h⟩ | ⟨_, m, h⟩ <;> rw [h] <;> rfl
+  · rcases C14_csptp_req_decode_total b with h | ⟨t, h, _⟩ <;> rw [h] <;> rfl
+  · rcases C14_csptp_resp_decode_total b with h | ⟨t, h, _⟩ <;> rw [h] <;> rfl
+
 /-- Instances: the `Valid` hypotheses of the round trips are met by the protocol's own values. -/
 example : (⟨0, 0x12, 98, 0, 0, 0x0600, -1, 0, 0xffffffffffffffff, 1, 65535, 0, 0x7f,
     ⟨281474976710655, 999999999⟩⟩ : Message).Valid := by
